@@ -1,0 +1,181 @@
+//go:build verif
+
+package transport
+
+// Machine-checked contracts for the gocv verifier (/verif/DESIGN.md). Comments only.
+
+// ---------------------------------------------------------------- trusted: net/http, io, bytes, sync
+//@ trusted (*net/http.Request).Context() (ctx)
+//@   nopanic
+//@   pure
+//@ trusted (net/http.ResponseWriter).WriteHeader(code)
+//@   nopanic
+//@ trusted (net/http.ResponseWriter).Header() (h)
+//@   ensures h != nil
+//@   nopanic
+//@   pure
+//@ trusted io.ReadAll(r) (b, err)
+//@   nopanic
+//@ trusted bytes.NewReader(b) (r)
+//@   ensures r != nil
+//@   nopanic
+//@   pure
+// The transport's pool only ever holds *graphql.RawParams: New returns one, and the only Put is the one whose
+// call-site precondition (non-nil, every field zero) is proved in POST.Do.
+//@ trusted (*sync.Pool).Get() (x)
+//@   ensures isType(x, "*github.com/99designs/gqlgen/graphql.RawParams") && asRef(x) != 0
+//@   nopanic
+//@ trusted (*sync.Pool).Put(x)
+//@   nopanic
+//@ trusted dyn:responses(ctx) (resp)
+
+// ---------------------------------------------------------------- helpers
+// jsonDecode(r, val) decodes into *val; when val is a **T and the JSON text is `null` the decoder stores a nil *T
+// (this is why callers must pass the *T itself, or check for nil afterwards). Modelled by the engine: a local
+// whose address is passed is unconstrained (possibly nil) after the call.
+//@ trusted jsonDecode(r, val) (err)
+//@   nopanic
+//@ trusted writeJson(w, response)
+//@ trusted writeJsonError(w, msg)
+//@ trusted writeJsonErrorf(w, format, args)
+//@ trusted writeJsonGraphqlError(w, err)
+
+// ---------------------------------------------------------------- POST
+// C10: no nil dereference / failed assertion in gqlgen's own code for any request body (including JSON null).
+// C07: the pooled parameter object is returned with every field zero on every exit path, panics included.
+// C03/C09: the operation is dispatched only if CreateOperationContext returned no error, at most once, and
+// then no status line other than the implicit 200 is written.
+//@ func (POST).Do [C07,C10,C03,C09]
+//@   requires r != nil && w != nil && exec != nil
+//@   safe
+//@   at `exec.CreateOperationContext(ctx, params)` requires params != nil
+//@   at `pool.Put(params)` requires params != nil && isZero(params)
+//@   callsite DispatchOperation: requires opErr == nil
+//@   ensures calls(DispatchOperation) >= 1 ==> calls(WriteHeader) == 0
+//@   ensures calls(DispatchOperation) <= 1
+//@   ensures calls(DispatchOperation) + calls(DispatchError) == 1
+//@   ensures calls(Put) == 1
+//@   replay transportNullBody.go.tmpl
+
+// ---------------------------------------------------------------- more trusted helpers
+//@ trusted getRequestBody(r) (s, err)
+//@   nopanic
+//@ trusted cleanupBody(body) (out, err)
+//@   nopanic
+//@   pure
+//@ trusted SendErrorf(w, code, format, args)
+//@ trusted strings.NewReader(s) (r)
+//@   ensures r != nil
+//@   nopanic
+//@   pure
+//@ trusted io.NopCloser(r) (rc)
+//@   nopanic
+//@   pure
+//@ trusted net/url.ParseQuery(q) (v, err)
+//@   nopanic
+//@   pure
+//@ trusted (net/url.Values).Get(key) (s)
+//@   nopanic
+//@   pure
+//@ trusted (net/http.Header).Get(key) (s)
+//@   nopanic
+//@   pure
+//@ trusted (net/http.Header).Set(key, value)
+//@ trusted fmt.Fprint(w, a) (n, err)
+//@   nopanic
+//@   pure
+//@ trusted fmt.Sprintf(format, a) (s)
+//@   nopanic
+//@   pure
+//@ trusted log.Printf(format, v)
+//@   nopanic
+//@   pure
+//@ trusted (error).Error() (s)
+//@   pure
+//@ trusted github.com/99designs/gqlgen/graphql/errcode.GetErrorKind(errs) (k)
+//@   nopanic
+//@   pure
+// ForName is a deterministic, read-only lookup (gqlparser): modelled by the uninterpreted function forName.
+//@ trusted (github.com/vektah/gqlparser/v2/ast.OperationList).ForName(name) (op)
+//@   ensures op == forName(recv, name)
+//@   nopanic
+//@   pure
+
+// ---------------------------------------------------------------- GET
+// C09: over GET only query operations are dispatched, and it is the operation selected by the executor
+// (op == opCtx.Operation) that is checked. C03: gate. C10: no own-code panic.
+//@ func (GET).Do [C09,C03,C10]
+//@   requires r != nil && w != nil && exec != nil && r.URL != nil
+//@   safe
+//@   callsite DispatchOperation: requires gqlError == nil && op == opCtx.Operation && op.Operation == ast.Query
+//@   ensures calls(DispatchOperation) >= 1 ==> calls(WriteHeader) == 0
+//@   ensures calls(DispatchOperation) <= 1
+//@   ensures calls(CreateOperationContext) == 0 ==> calls(DispatchOperation) == 0
+
+// ---------------------------------------------------------------- application/graphql
+//@ func (GRAPHQL).Do [C09,C03,C10]
+//@   requires r != nil && w != nil && exec != nil
+//@   safe
+//@   at `exec.CreateOperationContext(ctx, params)` requires params != nil
+//@   callsite DispatchOperation: requires opErr == nil
+//@   ensures calls(DispatchOperation) >= 1 ==> calls(WriteHeader) == 0
+//@   ensures calls(DispatchOperation) <= 1
+//@   ensures calls(DispatchOperation) + calls(DispatchError) == 1
+
+// ---------------------------------------------------------------- urlencoded form
+//@ func (UrlEncodedForm).parseJson [C10]
+//@   ensures res1 == nil ==> res0 != nil
+//@   safe
+//@ func (UrlEncodedForm).parseEncoded [C10]
+//@   ensures res1 == nil ==> res0 != nil
+//@   safe
+//@ func (UrlEncodedForm).parseBody [C10]
+//@   ensures res1 == nil ==> res0 != nil
+//@   safe
+//@ func (UrlEncodedForm).Do [C09,C03,C10]
+//@   requires r != nil && w != nil && exec != nil
+//@   safe
+//@   at `exec.CreateOperationContext(ctx, params)` requires params != nil
+//@   callsite DispatchOperation: requires opErr == nil
+//@   ensures calls(DispatchOperation) >= 1 ==> calls(WriteHeader) == 0
+//@   ensures calls(DispatchOperation) <= 1
+//@   ensures calls(DispatchOperation) + calls(DispatchError) == 1
+
+// ---------------------------------------------------------------- SSE
+//@ trusted (*sseConnection).flush()
+//@ trusted (*sseConnection).keepAlive(w)
+//@ trusted (*sseConnection).resetTicker(d)
+//@ trusted writeJsonWithSSE(w, response)
+//@ trusted time.NewTicker(d) (t)
+//@ trusted (*sync.Mutex).Lock()
+//@   nopanic
+//@   pure
+//@ trusted (*sync.Mutex).Unlock()
+//@   nopanic
+//@   pure
+//@ func (SSE).Do [C03,C10]
+//@   requires r != nil && w != nil && exec != nil
+//@   safe
+//@   at `exec.CreateOperationContext(ctx, params)` requires params != nil
+//@   callsite DispatchOperation: requires opErr == nil
+//@   callsite DispatchError: requires calls(DispatchOperation) == 0
+//@   ensures calls(DispatchOperation) <= 1
+//@   replay transportNullBody.go.tmpl
+
+// ---------------------------------------------------------------- multipart/mixed
+//@ trusted (net/http.Flusher).Flush()
+//@ trusted newMultipartResponseAggregator(w, boundary, d) (a)
+//@   ensures a != nil
+//@ trusted (*multipartResponseAggregator).Done(w)
+//@ trusted (*multipartResponseAggregator).Add(resp, initial)
+//@ trusted (time.Duration).Milliseconds() (ms)
+//@   nopanic
+//@   pure
+//@ func (MultipartMixed).Do [C03,C10]
+//@   requires r != nil && w != nil && exec != nil
+//@   safe
+//@   at `exec.CreateOperationContext(ctx, params)` requires params != nil
+//@   callsite DispatchOperation: requires opErr == nil
+//@   ensures calls(DispatchOperation) >= 1 ==> calls(WriteHeader) == 0
+//@   ensures calls(DispatchOperation) <= 1
+//@   replay transportNullBody.go.tmpl
